@@ -20,7 +20,7 @@ RULE = ("harness-generated template datasets (rank 1-3, extents 1-6, coordinate 
         "grid_mapping) x variables of f8/f4/i8/i4/i2 with and without _FillValue and random masks x every DataType x MissingValue "
         "combination; write cases with 1-4 results (float64/float32/int64/int32, nomask / all-false / random masks) written together; "
         "distinct by (case kind, rank, stored type, DataType, MissingValue class, has-fill, n results, mask classes)")
-REQUIRED_COUNTERS = ["reads_compared", "type_check_cases", "writes_read_back", "template_copies_compared", "union_mask_checks"]
+REQUIRED_COUNTERS = ["reads_compared", "type_check_cases", "writes_read_back", "template_copies_compared", "union_mask_checks", "writes_over_an_older_dataset"]
 ASSUMPTIONS = ["don't-care: real data equal to the fill value, result names clashing with dimension names, compression settings, plain ndarray results",
                "Fuzzy: data within [-1,1] must come back unchanged, data beyond +-1.5 must be rejected, whatever is returned lies in [-1,1]; the width "
                "of the tolerance band in between is not documented and not judged", "the parameter is called MissingValue in the code (MissingVal in the docs)"]
@@ -48,7 +48,7 @@ def cases(ctx):
         yield {"kind": "write", "shape": gen_shape(rng), "n": rng.randint(1, 4), "crs": rng.random() < 0.4, "rseed": rng.randrange(10 ** 9)}
 
 
-def make_template(d, shape, rng, crs=False):
+def make_template(d, shape, rng, crs=False, packed=False):
     from netCDF4 import Dataset
     path = os.path.join(d, "template.nc")
     info = {"dims": [], "coords": {}, "attrs": {}}
@@ -56,14 +56,26 @@ def make_template(d, shape, rng, crs=False):
         for i, n in enumerate(shape):
             nm = ["y", "x", "t"][i] if len(shape) <= 3 else "d%d" % i
             ds.createDimension(nm, n)
-            v = ds.createVariable(nm, rng.choice(["f8", "f4", "i4"]), (nm,))
-            vals = numpy.arange(n) * rng.choice([1, 2, 30]) + rng.choice([0, 100, -5])
+            if packed and i == 0:
+                # a packed coordinate variable: integers on disk, scale_factor / add_offset give the coordinate values
+                v = ds.createVariable(nm, rng.choice(["i4", "i2"]), (nm,))
+                v.scale_factor = rng.choice([0.01, 0.25, 0.5])
+                v.add_offset = rng.choice([40.0, -100.0, 1000.0])
+                vals = v.add_offset + numpy.arange(n) * v.scale_factor * rng.choice([1, 25, 100])
+            else:
+                v = ds.createVariable(nm, rng.choice(["f8", "f4", "i4"]), (nm,))
+                vals = numpy.arange(n) * rng.choice([1, 2, 30]) + rng.choice([0, 100, -5])
             v[:] = vals
             v.units = rng.choice(["m", "degrees_north", "days since 2000-01-01"])
             v.long_name = "coordinate %s" % nm
             info["dims"].append(nm)
             info["coords"][nm] = numpy.array(v[:]).tolist()
             info["attrs"][nm] = {"units": v.units, "long_name": v.long_name}
+            if packed and i == 0:
+                info["attrs"][nm].update({"scale_factor": v.scale_factor, "add_offset": v.add_offset})
+                v.set_auto_maskandscale(False)
+                info.setdefault("raw", {})[nm] = numpy.array(v[:]).tolist()      # the integers on disk
+                v.set_auto_maskandscale(True)
         tv = ds.createVariable("tmpl", "f8", tuple(info["dims"]))
         tv[:] = numpy.zeros(shape)
         # a second template variable over its own, equally sized dimensions with other coordinates
@@ -224,7 +236,8 @@ def run_write(ctx, case):
     rng = random.Random(case["rseed"])
     shape = tuple(case["shape"])
     d = ctx.scratch()
-    tpath, info = make_template(d, shape, rng, case["crs"])
+    packed = case["rseed"] % 3 == 0
+    tpath, info = make_template(d, shape, rng, case["crs"], packed=packed)
     prog = arr.new_program(arr.NC_LIBS, working_dir=d)
     n = int(numpy.prod(shape))
     names, arrays, mclasses = [], [], []
@@ -252,6 +265,20 @@ def run_write(ctx, case):
     digests_before = [arr.digest(a) for a in arrays]
     _orig = [a.copy() for a in arrays]
     opath = os.path.join(d, "out.nc")
+    older = case["rseed"] % 4 == 1
+    if older:
+        # the output path already holds a dataset of an earlier model run: same dimension names with other coordinates, a
+        # variable of the first result's name stored as 32-bit integers, and a variable the new model does not write
+        with Dataset(opath, "w") as old:
+            for nm, ext in zip(info["dims"], shape):
+                old.createDimension(nm, ext)
+                ov = old.createVariable(nm, "f8", (nm,))
+                ov[:] = numpy.arange(ext) * 7.0 + 1234
+            ov = old.createVariable(names[0], "i4", tuple(info["dims"]))
+            ov[:] = numpy.zeros(shape, "i4")
+            ov = old.createVariable("Stale", "f8", tuple(info["dims"]))
+            ov[:] = numpy.ones(shape)
+        ctx.count("writes_over_an_older_dataset")
     out = arr.invoke(prog, "EEMSWrite", "W", {"OutFileName": opath, "OutFieldNames": list(names), "DimensionFileName": tpath, "DimensionFieldName": "tmpl"})
     mkey = "first-" + mclasses[0] + ("+later-mask" if any(m == "random" for m in mclasses[1:]) else "")
     if not out.ok:
@@ -270,8 +297,15 @@ def run_write(ctx, case):
                 return
             got = numpy.array(ds[nm][:]).tolist()
             if got != info["coords"][nm]:
-                ctx.fail("write:template-coordinates-changed", {"dimension": nm, "got": got, "want": info["coords"][nm]})
+                ctx.fail("write:template-coordinates-changed%s%s" % (":packed-coordinate" if nm in info.get("raw", {}) else "", ":path-held-an-older-dataset" if older else ""),
+                         {"dimension": nm, "got": got, "want": info["coords"][nm]})
                 return
+            if nm in info.get("raw", {}):
+                ds[nm].set_auto_maskandscale(False)
+                graw = numpy.array(ds[nm][:]).tolist()
+                if graw != info["raw"][nm] or str(ds[nm].dtype) != info.get("raw_dtype", {}).get(nm, str(ds[nm].dtype)):
+                    ctx.fail("write:template-coordinates-changed:packed-coordinate", {"dimension": nm, "stored": graw, "want_stored": info["raw"][nm]})
+                    return
             for an, av in info["attrs"][nm].items():
                 if an not in ds[nm].ncattrs() or ds[nm].getncattr(an) != av:
                     ctx.fail("write:template-attribute-lost", {"dimension": nm, "attribute": an})
@@ -279,6 +313,12 @@ def run_write(ctx, case):
         for nm in names:
             if nm not in ds.variables or tuple(ds[nm].dimensions) != tuple(info["dims"]):
                 ctx.fail("write:variable-missing-or-wrong-dimensions", {"variable": nm})
+                return
+        if older:
+            stale = [v for v in ds.variables if v not in names and v not in info["dims"] and v != "crs"]
+            kind0 = ds[names[0]].dtype.kind
+            if stale or (kind0 in "iu") != (arrays[0].dtype.kind in "iu"):
+                ctx.fail("write:older-dataset-at-the-output-path-not-replaced", {"left_over_variables": stale, "stored_type_of_first_result": str(ds[names[0]].dtype), "result_type": str(arrays[0].dtype)})
                 return
     # read back through EEMSRead
     for k, nm in enumerate(names):
